@@ -39,6 +39,16 @@ var kinds = []string{"i", "f", "s", "b", "n"}
 // short escapes and \uXXXX escapes (the property: keys are compared after decoding)
 var keyPool = []string{"a", "b", "c", "d", "zz", "a\"b", "a\\b", "line\nbreak", "tab\t", "\u00e9t\u00e9", "sl/ash", " ", "A", "\U0001F600k", "a\u0001"}
 
+// the first nBase names are the pool of the random generator; the names after them (w000, w001, …) exist only for the
+// WIDE stream (objects with many properties)
+const nBase = 15
+
+func init() {
+	for i := 0; i < 600; i++ {
+		keyPool = append(keyPool, fmt.Sprintf("w%03d", i))
+	}
+}
+
 func keyAtom(i int) string { return fmt.Sprintf("k%d", i) }
 
 // spell a decoded name as a JSON string literal
@@ -99,7 +109,7 @@ func genNode(r *rand.Rand, depth int) *node {
 		n := &node{kind: "obj", nullable: r.Intn(5) == 0}
 		n.nulFalse = !n.nullable && r.Intn(6) == 0
 		cnt := r.Intn(4)
-		perm := r.Perm(len(keyPool))
+		perm := r.Perm(nBase)
 		if r.Intn(2) == 0 { // plain names most of the time
 			perm = r.Perm(4)
 		}
@@ -276,7 +286,7 @@ func sample(r *rand.Rand, n *node, optDefault bool, mut int) *doc {
 			}
 		}
 		if mut > 0 && r.Intn(100) < mut/2 { // add a key
-			d.keys = append(d.keys, r.Intn(len(keyPool)))
+			d.keys = append(d.keys, r.Intn(nBase))
 			d.items = append(d.items, randomDoc(r, 1))
 		}
 		r.Shuffle(len(d.keys), func(i, j int) {
@@ -351,6 +361,169 @@ func docSx(d *doc) string {
 	}
 }
 
+
+// ---- WIDE stream: the statement quantifies over EVERY key of the example and EVERY array position, whatever their number.
+// Objects with w properties and example arrays with w elements for widths around powers of two (word sizes, small-table
+// limits), documents that are the full inhabitant with ONE key dropped / one element of the wrong kind at every
+// boundary index, one key added, longer arrays governed by the last element.
+var widths = []int{5, 17, 31, 32, 33, 63, 64, 65, 66, 100, 127, 128, 129, 130, 255, 256, 257, 300}
+
+func boundaryIdx(w int) []int {
+	seen := map[int]bool{}
+	var out []int
+	for _, i := range []int{0, 1, 7, 8, 15, 16, 30, 31, 32, 33, 62, 63, 64, 65, 66, 126, 127, 128, 129, 254, 255, 256, w / 2, w - 2, w - 1} {
+		if i >= 0 && i < w && !seen[i] {
+			seen[i] = true
+			out = append(out, i)
+		}
+	}
+	return out
+}
+
+func wideObject(r *rand.Rand, w int, marks int) *node {
+	n := &node{kind: "obj"}
+	for i := 0; i < w; i++ {
+		mark := 0
+		switch marks {
+		case 1: // every key explicitly optional: false
+			mark = 2
+		case 2: // mixed
+			mark = r.Intn(3)
+		}
+		n.props = append(n.props, &prop{key: nBase + i, mark: mark, val: &node{kind: "lit", lit: kinds[r.Intn(4)]}})
+	}
+	return n
+}
+
+func wideArray(r *rand.Rand, w int) *node {
+	n := &node{kind: "arr"}
+	for i := 0; i < w; i++ {
+		n.items = append(n.items, &node{kind: "lit", lit: kinds[(i+r.Intn(2))%4]})
+	}
+	return n
+}
+
+// full inhabitant, deterministic (no optional key left out)
+func full(n *node) *doc {
+	switch n.kind {
+	case "lit":
+		return &doc{kind: "l", lit: n.lit}
+	case "arr":
+		d := &doc{kind: "a"}
+		for _, it := range n.items {
+			d.items = append(d.items, full(it))
+		}
+		return d
+	default:
+		d := &doc{kind: "o"}
+		for _, p := range n.props {
+			d.keys = append(d.keys, p.key)
+			d.items = append(d.items, full(p.val))
+		}
+		return d
+	}
+}
+
+func otherKind(k string) string {
+	if k == "s" {
+		return "b"
+	}
+	return "s"
+}
+
+// variants of the full inhabitant of a wide node (the node may sit under `wrap` levels of arrays / objects)
+func wideDocs(r *rand.Rand, n *node) []*doc {
+	var out []*doc
+	base := full(n)
+	out = append(out, base)
+	clone := func() *doc {
+		c := &doc{kind: base.kind, keys: append([]int{}, base.keys...), items: append([]*doc{}, base.items...)}
+		return c
+	}
+	w := len(base.items)
+	for _, i := range boundaryIdx(w) {
+		// drop position i
+		c := clone()
+		c.items = append(c.items[:i:i], c.items[i+1:]...)
+		if base.kind == "o" {
+			c.keys = append(c.keys[:i:i], c.keys[i+1:]...)
+		}
+		out = append(out, c)
+		// wrong kind at position i
+		c = clone()
+		c.items[i] = &doc{kind: "l", lit: otherKind(base.items[i].lit)}
+		out = append(out, c)
+	}
+	if base.kind == "o" {
+		c := clone() // one unknown key
+		c.keys = append(c.keys, nBase+w+3)
+		c.items = append(c.items, &doc{kind: "l", lit: "i"})
+		out = append(out, c)
+		c = clone() // reversed order
+		for i, j := 0, w-1; i < j; i, j = i+1, j-1 {
+			c.keys[i], c.keys[j] = c.keys[j], c.keys[i]
+			c.items[i], c.items[j] = c.items[j], c.items[i]
+		}
+		out = append(out, c)
+		c = clone() // shuffled
+		r.Shuffle(w, func(i, j int) {
+			c.keys[i], c.keys[j] = c.keys[j], c.keys[i]
+			c.items[i], c.items[j] = c.items[j], c.items[i]
+		})
+		out = append(out, c)
+	} else {
+		last := base.items[w-1]
+		for _, extra := range []int{1, 2, 70} { // positions past the example: the last element governs
+			c := clone()
+			for k := 0; k < extra; k++ {
+				c.items = append(c.items, last)
+			}
+			out = append(out, c)
+			c2 := &doc{kind: "a", items: append([]*doc{}, c.items...)}
+			c2.items[len(c2.items)-1] = &doc{kind: "l", lit: otherKind(last.lit)}
+			out = append(out, c2)
+		}
+	}
+	return out
+}
+
+type wideCase struct {
+	n          *node
+	docs       []*doc
+	optDefault bool
+}
+
+func wideCases(r *rand.Rand) []wideCase {
+	var out []wideCase
+	for _, w := range widths {
+		for marks := 0; marks < 3; marks++ {
+			for _, optDefault := range []bool{false, true} {
+				if marks == 0 && optDefault {
+					continue // nothing required: covered by marks 1 / 2
+				}
+				o := wideObject(r, w, marks)
+				out = append(out, wideCase{o, wideDocs(r, o), optDefault})
+				// the same object as the only element of an array, and as a property value
+				wrapA := &node{kind: "arr", items: []*node{o}}
+				var da []*doc
+				for _, d := range wideDocs(r, o) {
+					da = append(da, &doc{kind: "a", items: []*doc{d, d}})
+				}
+				out = append(out, wideCase{wrapA, da, optDefault})
+			}
+		}
+		a := wideArray(r, w)
+		out = append(out, wideCase{a, wideDocs(r, a), false})
+		wrapO := &node{kind: "obj", props: []*prop{{key: 0, mark: 0, val: a}}}
+		var do []*doc
+		for _, d := range wideDocs(r, a) {
+			do = append(do, &doc{kind: "o", keys: []int{0}, items: []*doc{d}})
+		}
+		out = append(out, wideCase{wrapO, do, false})
+	}
+	return out
+}
+
 func depthOf(n *node) int {
 	m := 0
 	for _, it := range n.items {
@@ -416,6 +589,49 @@ func Run(args []string) {
 			in := fmt.Sprintf("schema=%q optDefault=%v document=%q", text, optDefault, dt)
 			inputs = append(inputs, in)
 			rep.Case(schemaSx+" "+docSx(d), depthOf(n) >= 2)
+		}
+	}
+	// WIDE stream
+	for _, wc := range wideCases(r) {
+		var sb strings.Builder
+		print(&sb, wc.n, 0, "", "", r)
+		text := sb.String()
+		var s *jschema.Schema
+		if wc.optDefault {
+			s = jschema.New("s", text, jschema.KeysAreOptionalByDefault())
+		} else {
+			s = jschema.New("s", text)
+		}
+		chk := vh.Recover(func() string {
+			if err := s.Check(); err != nil {
+				return "ERR " + err.Error()
+			}
+			return "OK"
+		})
+		if chk != "OK" {
+			rep.AddDiff(vh.Diff{Component: "C01-check", Input: fmt.Sprintf("schema=%q optDefault=%v", text, wc.optDefault), Impl: chk, Model: "a schema of the fragment must pass Check"})
+			continue
+		}
+		schemaSx := sx(wc.n, wc.optDefault)
+		for _, d := range wc.docs {
+			dt := docText(d, r)
+			verdict := vh.Recover(func() string {
+				if err := s.Validate(jdoc.New("d", dt)); err != nil {
+					return "000"
+				}
+				return "111"
+			})
+			rep.Stat("wide_cases")
+			if verdict == "111" {
+				rep.Stat("wide_accepted")
+			} else {
+				rep.Stat("wide_rejected")
+			}
+			reqs = append(reqs, "semn val "+schemaSx+" "+docSx(d))
+			impl = append(impl, verdict)
+			in := fmt.Sprintf("schema=%q optDefault=%v document=%q", text, wc.optDefault, dt)
+			inputs = append(inputs, in)
+			rep.Case(schemaSx+" "+docSx(d), true)
 		}
 	}
 	rep.Compare(reqs, impl, inputs, 16)
